@@ -1,6 +1,7 @@
 import IrefVerif.Oracle
 import IrefVerif.Model.Ops
 import IrefVerif.Findings
+import IrefVerif.Model.Extra
 
 /-!
 # Line-protocol driver
@@ -504,6 +505,218 @@ def opHash (f : Fam) (kind : String) (a : Text) (out : String) : String × Strin
     else if out == "PANIC" then (if valid f kind a then "FAIL hashing panicked" else "skip") else "ok"
   (m, o)
 
+/-! ## conversions (C13) -/
+
+def opConvert (kind : String) (x : Text) (out : String) : String × String :=
+  let m := Model.convertLine kind x
+  let k : Option Kind := match kind with
+    | "uri" => some .uri | "uriref" => some .uriRef | "iri" => some .iri | "iriref" => some .iriRef
+    | _ => none
+  match k with
+  | none => bad'
+  | some k =>
+    if !acceptsSpec k x then
+      (m, if out == "invalid" then "skip" else "FAIL accepted an argument outside the RFC production")
+    else
+      let hasScheme := (split x).scheme.isSome
+      let u := acceptsSpec .uri x
+      let ur := acceptsSpec .uriRef x
+      let toks := (out.splitOn " ").filterMap fun t =>
+        match t.splitOn "=" with
+        | [n, v] => some (n, v)
+        | _ => none
+      -- what each conversion must do, by its name
+      let want (n : String) : Option Bool :=
+        if ["as_uri_ref", "as_iri", "as_iri_ref", "asref_uri_ref", "borrow_iri", "into_uri_ref", "into_iri",
+            "into_iri_ref", "from_buf", "from_iri_ref", "from_buf_iri_ref"].contains n then
+          (match k, n with
+           | .uriRef, "as_iri" => some hasScheme
+           | .iri, "as_uri_ref" => some ur
+           | .iriRef, "as_uri_ref" => some ur
+           | .iriRef, "as_iri" => some hasScheme
+           | _, _ => some true)
+        else if ["as_uri", "try_from_uri", "try_into_uri", "tryfrom_buf_uri"].contains n then
+          (match k with
+           | .uriRef => some hasScheme
+           | _ => some u)
+        else if ["try_from_iri", "try_into_iri", "tryfrom_buf_iri"].contains n then some hasScheme
+        else if ["try_from_uri_ref", "try_into_uri_ref", "tryfrom_buf_uri_ref"].contains n then some ur
+        else none
+      let bads := toks.filterMap fun (n, v) =>
+        match want n with
+        | some true => if v == "ok" then none else some s!"{n} should succeed with the text unchanged, got {v}"
+        | some false => if v == "none" || v == "err" then none else some s!"{n} should fail and hand the value back, got {v}"
+        | none => some s!"unknown conversion {n}"
+      (m, if toks.isEmpty then "FAIL " ++ out else verdict bads.head?)
+where bad' : String × String := ("bad-op", "FAIL malformed request")
+
+/-! ## routes out (C14), views (C08) -/
+
+def opRoutes (k : Kind) (x : Text) (out : String) : String × String :=
+  let m := Model.routesLine k x
+  let o := if !(acceptsSpec k x && (utf8Decode? x).isSome) then
+      (if out == "invalid" then "skip" else "FAIL accepted an argument outside the RFC production")
+    else verdict (check (out == "1") ("a textual route does not reproduce the text: " ++ out))
+  (m, o)
+
+def opViews (f : Fam) (x : Text) (out : String) : String × String :=
+  let m := Model.viewsLine f x
+  let o := if !valid f "full" x then
+      (if out == "invalid" then "skip" else "FAIL accepted an argument outside the RFC production")
+    else verdict (check (out == m) ("views of one value hash/compare/look up differently: " ++ out))
+  (m, o)
+
+/-! ## data URLs (C18) -/
+
+def opDataUrl (x : Text) (out : String) : String × String :=
+  let m := Model.dataurlLine x
+  let o :=
+    if out == "0" then "skip"
+    else if out.startsWith "ACCEPT-DIFF" then "FAIL borrowed and owned constructors disagree"
+    else if out.startsWith "VIEWS-DIFF" then "FAIL borrowed and owned views disagree"
+    else if out.startsWith "ERRCHANGED" then "FAIL the error does not hand the input back"
+    else match out.splitOn " " with
+      | [mt, b64, data, dec] =>
+        match unohex mt, unhex data with
+        | some mt, some data =>
+          let b := b64 == "1"
+          let mtT := mt.getD []
+          let re := Model.DataUrl.dataPrefix ++ mtT ++ (if b then [0x3B, 0x62, 0x61, 0x73, 0x65, 0x36, 0x34] else []) ++ [0x2C] ++ data
+          let wantDec := match Model.DataUrl.decoded b data with
+            | some t => hex t
+            | none => "b64err"
+          verdict (firstFail [
+            check (acceptsSpec .uri x) "accepted a text that is not a valid URI",
+            check (re == x) "media type, base64 flag and data do not reassemble the original text",
+            check (mt != some []) "empty media type reported as present",
+            check (mtT.all Model.DataUrl.isMediaTypeChar) "media type contains a delimiter",
+            check (dec == wantDec) "decoded data is not the (base64) decoding of the data part"])
+        | _, _ => "FAIL " ++ out
+      | _ => "FAIL " ++ out
+  (m, o)
+
+/-! ## percent-decoded views (C19) -/
+
+def opPct (f : Fam) (kind : String) (x : Text) (out : String) : String × String :=
+  let m := Model.pctLine f kind x
+  let o :=
+    if !valid f kind x then
+      (if out == "invalid" then "skip" else "FAIL accepted an argument outside the RFC production")
+    else
+      let kvs := (out.splitOn " ").filterMap fun t =>
+        match t.splitOn "=" with
+        | [k, v] => some (k, v)
+        | _ => none
+      let g := field kvs
+      let octets := pctDecode x
+      let v := match utf8Decode? octets with
+        | some cs => firstFail [
+            check (g "bytes" == hex octets) "decoded octets are not the component's bytes with each %XX replaced",
+            check (g "chars" == "[" ++ ".".intercalate (cs.map Model.hexNum) ++ "]") "chars() is not the UTF-8 text of the decoded octets",
+            check (g "len" == toString cs.length) "len() is not the number of characters",
+            check (g "decode" == hex octets) "decode() is not the UTF-8 text of the decoded octets",
+            check (g "eqdecoded" == "1") "comparison with the decoded plain text is false",
+            check (g "text" == "1") "the view is not the component's text"]
+        | none => firstFail [
+            check (g "bytes" == hex octets) "decoded octets are not the component's bytes with each %XX replaced",
+            check (!(out.splitOn "PANIC").length > 1) "a percent-decoded view panicked on octets that are not UTF-8",
+            some "ill-formed or overlong octets were read as well-formed text"]
+      match v with
+      | none => "ok"
+      | some msg => if Findings.f13 x then "FAIL " ++ msg ++ " [KF:F13]" else "FAIL " ++ msg
+  (m, o)
+
+/-! ## provenance and allocation (C20) -/
+
+/-- `a+b` → range, `const:x..` → constant, `-` → absent -/
+inductive Loc
+  | range (s e : Nat)
+  | const (t : Text)
+  | absent
+  | bad
+  deriving DecidableEq
+
+def parseLoc (s : String) : Loc :=
+  if s == "-" then .absent
+  else if s.startsWith "const:" then
+    match unhex (s.drop 6).toString with
+    | some t => .const t
+    | none => .bad
+  else match s.splitOn "+" with
+    | [a, b] =>
+      match a.toNat?, b.toNat? with
+      | some a, some b => .range a (a + b)
+      | _, _ => .bad
+    | _ => .bad
+
+def sliceT (x : Text) (s e : Nat) : Text := (x.take e).drop s
+
+def opPtr (f : Fam) (full : Bool) (x : Text) (out : String) : String × String :=
+  let k := if full then "full" else "ref"
+  let m := Model.ptrLine f full x
+  let o :=
+    if !valid f k x then
+      (if out == "invalid" then "skip" else "FAIL accepted an argument outside the RFC production")
+    else
+      let kvs := (out.splitOn " ").filterMap fun t =>
+        match t.splitOn "=" with
+        | [k, v] => some (k, v)
+        | _ => none
+      let g := fun k => parseLoc (field kvs k)
+      let p := split x
+      -- expected offsets from the Appendix-B decomposition
+      let o0 := 0
+      let (sR, o1) := match p.scheme with
+        | some s => (Loc.range o0 (o0 + s.length), o0 + s.length + 1)
+        | none => (Loc.absent, o0)
+      let (aR, o2) := match p.authority with
+        | some a => (Loc.range (o1 + 2) (o1 + 2 + a.length), o1 + 2 + a.length)
+        | none => (Loc.absent, o1)
+      let pR := Loc.range o2 (o2 + p.path.length)
+      let o3 := o2 + p.path.length
+      let (qR, o4) := match p.query with
+        | some q => (Loc.range (o3 + 1) (o3 + 1 + q.length), o3 + 1 + q.length)
+        | none => (Loc.absent, o3)
+      let fR := match p.fragment with
+        | some fr => Loc.range (o4 + 1) (o4 + 1 + fr.length)
+        | none => Loc.absent
+      let inPathPrefix (l : Loc) (allowed : List Text) (want : Text) : Bool :=
+        match l with
+        | .range s e => s == o2 && e ≤ o3 && sliceT x s e == want
+        | .const t => allowed.contains t && t == want
+        | _ => false
+      let segLoc (l : Loc) (want : Option Text) : Bool :=
+        match l, want with
+        | .absent, none => true
+        | .range s e, some w => o2 ≤ s && e ≤ o3 && sliceT x s e == w
+        | _, _ => false
+      let sg := segs p.path
+      let ap := p.authority.map splitAuth
+      let subLoc (l : Loc) (want : Option Text) : Bool :=
+        match l, want with
+        | .absent, none => true
+        | .range s e, some w => o1 + 2 ≤ s && e ≤ o2 && sliceT x s e == w
+        | _, _ => false
+      verdict (firstFail [
+        check (g "whole" == .range 0 x.length) "the parsed value does not occupy exactly the caller's input",
+        check (g "scheme" == sR && g "authority" == aR && g "path" == pR && g "query" == qR && g "fragment" == fR)
+          "components are not the in-order, non-overlapping sub-slices of the input given by RFC 3986",
+        check (subLoc (g "userinfo") (ap.bind (·.userinfo)) && subLoc (g "host") (ap.map (·.host)) &&
+          subLoc (g "port") (ap.bind (·.port))) "authority sub-components are not sub-slices of the authority",
+        check (segLoc (g "first") sg.head? && segLoc (g "last") sg.getLast? && segLoc (g "fn") (Oracle.fileName p.path))
+          "first/last/file name are not sub-slices of the path",
+        check (inPathPrefix (g "dir") [[]] (upToLastSlash p.path)) "directory is not a prefix of the path (or the empty constant)",
+        check (match Oracle.parentSpec p.path with
+          | some w => inPathPrefix (g "par") [[cSlash], [cSlash, cDot, cSlash]] w
+          | none => g "par" == .absent) "parent is not a prefix of the path (or a fixed constant)",
+        check (inPathPrefix (g "poe") [[], [cSlash], [cSlash, cDot, cSlash]] (Oracle.parentOrEmpty p.path))
+          "parent_or_empty is not a prefix of the path (or a fixed constant)",
+        check (g "base" == .range 0 (Oracle.baseSpec x).length) "base is not a prefix of the input",
+        check (field kvs "segs_inside" == "1") "a segment yielded by the iterators lies outside the input",
+        check (field kvs "nseg" == toString sg.length) "segment count",
+        check (field kvs "allocs" == "0") ("borrowed parsing/accessors allocated: " ++ field kvs "allocs")])
+  (m, o)
+
 /-! ## dispatch -/
 
 def bad : String × String := ("bad-op", "FAIL malformed request")
@@ -563,6 +776,40 @@ def dispatch (opLine out : String) : String × String :=
     match Fam.ofString? f, unhex a, unhex b with
     | some f, some a, some b => opCmp f kind a b out
     | _, _, _ => bad
+  | ["convert", kind, x] =>
+    match unhex x with
+    | some x => opConvert kind x out
+    | none => bad
+  | ["routes", k, x] =>
+    match Kind.ofString? k, unhex x with
+    | some k, some x => opRoutes k x out
+    | _, _ => bad
+  | ["views", f, x] =>
+    match Fam.ofString? f, unhex x with
+    | some f, some x => opViews f x out
+    | _, _ => bad
+  | ["dataurl", x] =>
+    match unhex x with
+    | some x => opDataUrl x out
+    | none => bad
+  | ["pct", f, kind, x] =>
+    match Fam.ofString? f, unhex x with
+    | some f, some x => opPct f kind x out
+    | _, _ => bad
+  | ["ptrbig", _, _, x] =>
+    -- summary line for inputs far larger than any inline buffer; the argument is not decoded
+    let len := (x.length - 1) / 2
+    let m := s!"len={len} whole=0+{len} segs_inside=1 allocs=0"
+    let toks := out.splitOn " "
+    let o := verdict (firstFail [
+      check (toks.contains s!"whole=0+{len}") "the parsed value does not occupy exactly the caller's input",
+      check (toks.contains "segs_inside=1") "a segment yielded by the iterators lies outside the input",
+      check (toks.contains "allocs=0") ("borrowed parsing/accessors allocated: " ++ out)])
+    (m, o)
+  | ["ptr", f, c, x] =>
+    match Fam.ofString? f, unhex x with
+    | some f, some x => opPtr f (c == "full") x out
+    | _, _ => bad
   | ["hash", f, kind, a] =>
     match Fam.ofString? f, unhex a with
     | some f, some a => opHash f kind a out
